@@ -216,7 +216,7 @@ class ConstraintKMeans(KMeans):
         if self.weights_ is None:
             if self.balanced_predictions:
                 labels, distances, __ = constraint_predictions(
-                    X, self.cluster_centers_, strategy=self.strategy
+                    X, self.cluster_centers_, strategy=self.strategy + "_p"
                 )
                 # We remove small distances than the chosen clusters
                 # due to the constraint, we choose max*2 instead.
@@ -249,7 +249,7 @@ class ConstraintKMeans(KMeans):
         if self.weights_ is None:
             if self.balanced_predictions:
                 _, __, dist_close = constraint_predictions(
-                    X, self.cluster_centers_, strategy=self.strategy
+                    X, self.cluster_centers_, strategy=self.strategy + "_p"
                 )
                 return dist_close
             res = euclidean_distances(self.cluster_centers_, X, squared=True)
